@@ -367,7 +367,9 @@ func (index *PatternIndex) searchPairs(ctx *Context, pairs []piPair) (StringSet,
 	Log(DEBUG, ctx, "PatternIndex.searchPairs", "default_input", pairs)
 
 	if len(pairs) == 0 {
-		return make(StringSet), nil
+		// Patterns that end at this node (for example, those with an
+		// empty map or array here) are candidates.
+		return make(StringSet).AddAll(index.Ids), nil
 	}
 
 	pair := pairs[0]
@@ -407,7 +409,9 @@ func (index *PatternIndex) searchPairs(ctx *Context, pairs []piPair) (StringSet,
 	// We took a step down.
 
 	// Let's see if we can find some Ids considering the value.
-	ids := make(StringSet)
+	// Patterns that end at this node are candidates regardless of
+	// the remaining pairs.
+	ids := make(StringSet).AddAll(index.Ids)
 	// We'll need to remember continuations.
 	next := make([]*PatternIndex, 0, 0)
 	next = append(next, index)
